@@ -172,6 +172,7 @@ def run_case(case):
             res.fail("get-proof-raised", "get_proof(%r) raised %r" % (k, e))
             continue
         res.emit("hx.proof 0 %s" % hx(k), enc_nodes(proof))
+        res.emit("hx.proofd %s %s" % (hx(root), hx(k)), enc_nodes(proof))     # raw-level _get_proof over the database
         walk = hexlib.path_walk(db, root, hexlib._nib(k))
         onpath = [n for _, n, _ in walk]
         for n in proof:
